@@ -762,6 +762,12 @@ class Engine:
                 return Int(a.t % b.t)
         if a.kind == 'str' and b.kind == 'str' and isinstance(op, ast.Add):
             return Str(z3.Concat(a.t, b.t), is_bytes=a.a.get('is_bytes', False))
+        if a.kind == 'str' and b.kind in ('int', 'bv') and isinstance(op, ast.Mult):
+            n = z3.simplify(b.t)
+            if z3.is_int_value(n) or z3.is_bv_value(n):
+                k = n.as_long()
+                if 0 < k <= 16:
+                    return Str(z3.Concat(*[a.t] * k) if k > 1 else a.t, is_bytes=a.a.get('is_bytes', False))      # text * small constant
         if isinstance(op, ast.Add) and a.kind in ('obj', 'str') and b.kind in ('obj', 'str'):
             return U('concat', a, b)
         if isinstance(op, ast.Add) and a.kind in ('obj', 'tuple') and b.kind in ('obj', 'tuple'):
